@@ -2,18 +2,21 @@ SPEC = {
     "id": "C06",
     "components": [
         {"comp": "flow_recv", "module": "QV.Model.FlowRecv", "quick": 1500, "thorough": 40000},
+        {"comp": "datagrams", "module": "QV.Model.DatagramState", "quick": 500, "thorough": 10000},
         {"comp": "sim_c06h", "module": "QV.Sys.MonC03", "quick": 112, "thorough": 3000, "pymod": "sim_c03h"},
     ],
     "assumptions": [
         "stream data is modelled by offsets and lengths (contents: C01); reads are observed as the number of bytes returned by a Chunks::next loop with a byte budget, so chunk boundaries are not observed",
-        "Assembler over-allocation defragmentation and the chunk-count cap are not modelled (cases keep every stream below the 32 KiB threshold); DatagramState.received and CRYPTO buffer limits belong to other checks",
+        "Assembler over-allocation defragmentation and the chunk-count cap are not modelled (cases keep every stream below the 32 KiB threshold); CRYPTO buffer limits belong to other checks (sim_c06h); DatagramState.received is covered by the `datagrams` component shared with C16",
         "set_max_concurrent is not exercised: max_concurrent_remote_count stays at its initial value",
         "send-side flow control limits are set large (2^30 per stream, 2^40 per connection) and never bind",
     ],
 }
 
 MANIFEST = {
-    "text": ("Receive-side enforcement of StreamsState/Recv/Chunks (stream and connection flow control, stream-count limit, "
+    "text": ("Unread DATAGRAM payloads never exceed datagram_receive_buffer_size: an accepted datagram evicts the oldest ones, as many as "
+             "needed, an oversized one is refused (C06_datagram_buffer_bounded, C06_oversized_datagram_refused on Model/DatagramState.v, "
+             "`datagrams` correspondence). Receive-side enforcement of StreamsState/Recv/Chunks (stream and connection flow control, stream-count limit, "
              "final-size consistency, credit issuance, stream credit on termination) is modelled in Coq (Model/FlowRecv.v) and the "
              "C06 theorems over_limit_rejected (per frame, all states) and accounting_exact (all op sequences: frames interleaved with "
              "ordered/unordered reads, stops, resets, window changes, control frames; includes the assembler invariant bytes_read <= end) "
